@@ -104,6 +104,11 @@ async fn handle_msg(socket_tx: &mut ClientSocket, req: Request, answer: &str, ou
             let t = match p.typ { MessageType::ERROR => "error", MessageType::WARNING => "warning", MessageType::INFO => "info", _ => "log" };
             out.push(format!("show {} {}", t, hex(&p.message)));
         }
+        "workspace/configuration" if answer.starts_with("HOLD") => {
+            // a slow client: the request is noted, the answer comes later (l.initlate)
+            out.push("cfgreq".to_string());
+            HELD_CONFIG.lock().unwrap().push(req.id().cloned().unwrap());
+        }
         "workspace/configuration" => {
             out.push("cfgreq".to_string());
             let id = req.id().cloned().unwrap();
@@ -121,7 +126,49 @@ async fn handle_msg(socket_tx: &mut ClientSocket, req: Request, answer: &str, ou
     }
 }
 
+static HELD_CONFIG: Mutex<Vec<tower_lsp::jsonrpc::Id>> = Mutex::new(Vec::new());
+
+fn config_response(id: tower_lsp::jsonrpc::Id, answer: &str) -> Response {
+    if answer == "FAIL" || answer.is_empty() {
+        Response::from_error(id, tower_lsp::jsonrpc::Error::method_not_found())
+    } else if answer == "NONE" {
+        Response::from_ok(id, serde_json::json!([]))
+    } else {
+        let v: serde_json::Value = serde_json::from_str(answer).expect("config json");
+        Response::from_ok(id, serde_json::json!([v]))
+    }
+}
+
 impl Session {
+    /// the client is slow: for `ms` of (virtual) time the configuration request stays unanswered, then it is answered
+    fn settle_late(&mut self, ms: u64) -> Vec<String> {
+        let real = std::mem::replace(&mut self.config_answer, "HOLD".to_string());
+        {
+            let socket = &mut self.socket;
+            let pending = &mut self.pending;
+            self.rt.block_on(async {
+                let mut waited = 0u64;
+                while waited < ms {
+                    while let Some(Some(req)) = socket.next().now_or_never() {
+                        handle_msg(socket, req, "HOLD", pending).await;
+                    }
+                    for _ in 0..20 { tokio::task::yield_now().await; }
+                    tokio::time::advance(std::time::Duration::from_millis(100)).await;
+                    waited += 100;
+                }
+                while let Some(Some(req)) = socket.next().now_or_never() {
+                    handle_msg(socket, req, "HOLD", pending).await;
+                }
+                let held: Vec<_> = HELD_CONFIG.lock().unwrap().drain(..).collect();
+                for id in held {
+                    let _ = socket.send(config_response(id, &real)).await;
+                }
+            });
+        }
+        self.config_answer = real;
+        self.settle()
+    }
+
     /// send one request/notification; client-bound traffic is drained concurrently (the server's
     /// channel to the client is bounded, a handler blocks on it otherwise)
     fn call(&mut self, req: Request) -> Option<Response> {
@@ -185,7 +232,7 @@ pub fn dispatch(st: &mut LspState, op: &str, f: &[String]) -> Option<String> {
     if !op.starts_with("l.") && !op.starts_with("fs.") && !op.starts_with("srv.") {
         return None;
     }
-    if st.s.is_none() && matches!(op, "l.now" | "l.cache" | "l.tags" | "l.init" | "l.open" | "l.change" | "l.close" | "l.action" | "l.reply" | "l.settle" | "l.dump") {
+    if st.s.is_none() && matches!(op, "l.now" | "l.cache" | "l.tags" | "l.init" | "l.initlate" | "l.open" | "l.change" | "l.close" | "l.action" | "l.reply" | "l.settle" | "l.dump") {
         return Some("nosession".into());
     }
     Some(match op {
@@ -279,6 +326,17 @@ pub fn dispatch(st: &mut LspState, op: &str, f: &[String]) -> Option<String> {
             s.call(Request::build("initialize").id(id).params(serde_json::to_value(InitializeParams::default()).unwrap()).finish());
             s.call(Request::build("initialized").params(serde_json::to_value(InitializedParams {}).unwrap()).finish());
             s.settle().join(" ; ")
+        }
+        // l.initlate <ms> [regs…] : as l.init, but the client answers the configuration request only after <ms> of virtual time
+        "l.initlate" => {
+            let s = st.s.as_mut().unwrap();
+            let id = s.next_id; s.next_id += 1;
+            HELD_CONFIG.lock().unwrap().clear();
+            let real = std::mem::replace(&mut s.config_answer, "HOLD".to_string());
+            s.call(Request::build("initialize").id(id).params(serde_json::to_value(InitializeParams::default()).unwrap()).finish());
+            s.call(Request::build("initialized").params(serde_json::to_value(InitializedParams {}).unwrap()).finish());
+            s.config_answer = real;
+            s.settle_late(f[0].parse().unwrap()).join(" ; ")
         }
         "l.open" => {
             let s = st.s.as_mut().unwrap();
